@@ -94,6 +94,125 @@ def factorize (s : St) : Nat → Nat → Except Panic (List (Nat × Nat))
           | .error e => .error e
           | .ok rest => .ok ((p, cnt) :: rest)
 
+/-! ### Tables of a smaller limit read off a larger table
+
+`Sieve::new(N)` for MANY limits `N` (the dense limit sweep of the driver) is answered from ONE table built for a limit
+`M ≥ N`: the accessors at `n ≤ N` and the prime list cut at `N`.  `C13.primesUpTo_prefix`, `C13.minPrime_prefix`,
+`C13.isPrime_prefix` prove that this is exactly what `sieve N` itself shows. -/
+
+/-- the primes `≤ N` of an increasing prime list (that of a table built for a limit `M ≥ N`). -/
+def primesUpToL (ps : List Nat) (N : Nat) : List Nat := ps.takeWhile (fun p => decide (p ≤ N))
+
+def primesUpTo (s : St) (N : Nat) : List Nat := primesUpToL (primesOf s) N
+
+/-- a fold over the primes `≤ N` of an increasing prime list that stops at the first prime above `N` (no intermediate list:
+    what the driver runs for each of its ten thousand `new N` lines); `C13.foldUpTo_prefix`: it is the fold over
+    `Sieve::new(N).primes()`. -/
+@[specialize] def foldUpTo {β : Type} (f : β → Nat → β) (N : Nat) : List Nat → β → β
+  | [], b => b
+  | p :: ps, b => if p ≤ N then foldUpTo f N ps (f b p) else b
+
+/-! ### Every way of consuming the iterator `factorize(n)`
+
+`PrimeIter` implements `Iterator` by `next` alone; every other method of the trait is *provided* by std in terms of
+`next`.  For an iterator whose `next` yields the items `L` one after the other and then `None` for ever, `modesOf L k`
+is what std's definitions give after `k` initial calls of `next`: the result of those calls, then each provided method
+applied to what is left (`L.drop k`).  An override of a provided method in the crate has to agree with this. -/
+
+abbrev Item := Nat × Nat
+
+/-- tuple order of `(i32, i32)` -/
+def lexLe (a b : Item) : Bool := a.1 < b.1 || (a.1 == b.1 && a.2 ≤ b.2)
+
+/-- `Iterator::max_by`: the LAST of the greatest elements (`reduce(|x, y| if x > y { x } else { y })`). -/
+def maxBy (le : Item → Item → Bool) : List Item → Option Item
+  | [] => none
+  | x :: xs => some (xs.foldl (fun a y => if le a y then y else a) x)
+
+/-- `Iterator::min_by`: the FIRST of the least elements (`reduce(|x, y| if x > y { y } else { x })`). -/
+def minBy (le : Item → Item → Bool) : List Item → Option Item
+  | [] => none
+  | x :: xs => some (xs.foldl (fun a y => if le a y then a else y) x)
+
+/-- an order-sensitive fold (the closure the harness passes to `fold` / `for_each`), in `u64` wrapping arithmetic -/
+def foldStep (h : Nat) (pe : Item) : Nat := ((h * 31 + pe.1) * 31 + pe.2) % 2 ^ 64
+
+/-- `step_by(2)`: the items at positions 0, 2, 4, … -/
+def everyOther : List Item → List Item
+  | [] => []
+  | [x] => [x]
+  | x :: _ :: r => x :: everyOther r
+
+structure Modes where
+  /-- results of the `k` initial `next()` calls -/
+  pre : List (Option Item)
+  /-- `collect::<Vec<_>>()` -/
+  collect : List Item
+  /-- `count()` -/
+  count : Nat
+  /-- `last()` -/
+  last : Option Item
+  /-- `fold(7, foldStep)`; `for_each` with the same accumulation gives the same number -/
+  fold : Nat
+  /-- `map(|(_, e)| e).sum()` -/
+  sumExp : Nat
+  /-- `map(|(_, e)| e + 1).product()` (the divisor-count idiom) -/
+  prodExp1 : Nat
+  max : Option Item
+  min : Option Item
+  /-- `max_by_key(|x| x.1)` / `min_by_key(|x| x.1)` (ties: last / first) -/
+  maxByExp : Option Item
+  minByExp : Option Item
+  /-- `reduce(|a, b| (b.0, a.1 + b.1))` -/
+  reduce : Option Item
+  /-- `find(|x| x.1 >= 2)` -/
+  find : Option Item
+  /-- `position(|x| x.1 == 1)` -/
+  position : Option Nat
+  /-- `any(|x| x.0 > 1000)`, `all(|x| x.1 == 1)` -/
+  any : Bool
+  all : Bool
+  /-- `partition(|x| x.1 % 2 == 1)` -/
+  partition : List Item × List Item
+  /-- `unzip()` -/
+  unzip : List Nat × List Nat
+  /-- `nth(0)` / `nth(1)`, then `collect()` of what is left -/
+  nth0 : Option Item × List Item
+  nth1 : Option Item × List Item
+  /-- `skip(1).collect()`, `step_by(2).collect()` -/
+  skip1 : List Item
+  stepBy2 : List Item
+  /-- `by_ref().take(1).collect()`, then `count()` of what is left -/
+  take1 : List Item × Nat
+
+def modesOf (L : List Item) (k : Nat) : Modes :=
+  let r := L.drop k
+  { pre := (List.range k).map (fun i => L[i]?)
+    collect := r
+    count := r.length
+    last := r.getLast?
+    fold := r.foldl foldStep 7
+    sumExp := (r.map Prod.snd).sum
+    prodExp1 := (r.map (fun pe => pe.2 + 1)).prod
+    max := maxBy lexLe r
+    min := minBy lexLe r
+    maxByExp := maxBy (fun a b => decide (a.2 ≤ b.2)) r
+    minByExp := minBy (fun a b => decide (a.2 ≤ b.2)) r
+    reduce := match r with
+      | [] => none
+      | x :: xs => some (xs.foldl (fun a b => (b.1, a.2 + b.2)) x)
+    find := r.find? (fun pe => decide (2 ≤ pe.2))
+    position := r.findIdx? (fun pe => pe.2 == 1)
+    any := r.any (fun pe => decide (1000 < pe.1))
+    all := r.all (fun pe => pe.2 == 1)
+    partition := (r.filter (fun pe => pe.2 % 2 == 1), r.filter (fun pe => !(pe.2 % 2 == 1)))
+    unzip := (r.map Prod.fst, r.map Prod.snd)
+    nth0 := (r[0]?, r.drop 1)
+    nth1 := (r[1]?, r.drop 2)
+    skip1 := r.drop 1
+    stepBy2 := everyOther r
+    take1 := (r.take 1, (r.drop 1).length) }
+
 /-! ### Executable specification: the arithmetic definitions by trial division -/
 
 /-- least `d ≥ k` dividing `n`, searching while `d*d ≤ n`; `n` itself if there is none. -/
